@@ -143,6 +143,23 @@ impl<T: Value> ErasedObserver for InternalObserver<T> {
     }
     fn run_all(&self, input: &Node, node_update: NodeUpdateDelayed, now: StabilisationNum) {
         let mut handlers = self.on_update_handlers.borrow_mut();
+        #[cfg(cormacrelf_incremental_rs_verif)]
+        if let Some(ascending) = crate::verif_knobs::handler_order() {
+            let mut tokens: Vec<SubscriptionToken> = handlers.keys().copied().collect();
+            tokens.sort_by_key(|t| t.1);
+            if !ascending {
+                tokens.reverse();
+            }
+            for token in tokens {
+                let Some(handler) = handlers.get_mut(&token) else { continue };
+                match self.state.get() {
+                    Created | Unlinked => panic!(),
+                    Disallowed => (),
+                    InUse => handler.run(input, node_update, now),
+                }
+            }
+            return;
+        }
         for (id, handler) in handlers.iter_mut() {
             tracing::trace!("running update handler with id {id:?}");
             /* We have to test [state] before each on-update handler, because an on-update
